@@ -906,9 +906,13 @@ func Merge[T any](in ...Stream[T]) Stream[T] {
 		// Nobody else will.
 		sender.Close(nil)
 	}
+	var wg sync.WaitGroup
+	wg.Add(len(in))
 	for i := 0; i < len(in); i++ {
 		i := i
 		go func() {
+			defer wg.Done()
+			defer in[i].Close()
 			defer func() {
 				if int(atomic.AddUint32(&nDone, 1)) == len(in) &&
 					atomic.LoadUint32(&closeOnce) == 0 {
@@ -934,7 +938,13 @@ func Merge[T any](in ...Stream[T]) Stream[T] {
 			}
 		}()
 	}
-	return receiver
+	return &mergeStream[T]{
+		inner: receiver,
+		cancel: func() {
+			cancel()
+			wg.Wait()
+		},
+	}
 }
 
 type mergeStream[T any] struct {
